@@ -1799,6 +1799,10 @@ func (p *Parser) parseRightSideExpression(left ast.BooleanExpression, single boo
 			impData.add(chainedImpData)
 			return chained, impData, nil
 		}
+		if p.curToken.Type != token.OR {
+			// Not an operator: leave the token to the caller, which reports it.
+			return grouped, impData, nil
+		}
 		operator = p.curToken.Type
 		if negated {
 			operator = getNegatedBooleanOperator(p.curToken.Type)
